@@ -398,8 +398,11 @@ func (m c01) roundTrip(c *fw.Ctx, rec gts.Sequence, origin, desc string) []byte 
 				if model.SafeString(a) == model.SafeString(b) {
 					continue
 				}
-				aa, ab := model.CollapseDups(model.Bases(model.Den(a))), model.CollapseDups(model.Bases(model.Den(b)))
-				if !model.EqualAtoms(aa, ab) {
+				raw := model.Bases(model.Den(a))
+				aa, ab := model.CollapseDups(raw), model.CollapseDups(model.Bases(model.Den(b)))
+				// the listed deviation only removes a repeated residue: the written
+				// location must actually contain one, and nothing else may differ.
+				if !model.EqualAtoms(aa, ab) || len(aa) == len(raw) {
 					okAll = false
 				}
 			}
